@@ -40,8 +40,8 @@ PLAN["C02"] = {
     "assumptions": COMMON_ASSUMPTIONS + ["the product map of Intersection is documented [out]: pre-filled product maps are not part of the domain"],
     "claim": "All pairs of the finite domains through every union/intersection entry point and map-passing mode against the reference; exhaustive within bounds.",
     "technique": "bounded exhaustive enumeration of automata pairs x entry points x map modes against reference union/product",
-    "quick": [("rel", "c02.n2s3k2"), ("rel", "c02.n2s2k3")],
-    "thorough": [("rel", "c02.n2s3k3"), ("rel", "c02.n2s2k4"), ("rel", "c02.n3s3pk4")],
+    "quick": [("rel", "c02.n2s3k2"), ("rel", "c02.n2s2k3"), ("rel", "c02.trim.n3s3pk3"), ("rel", "c02.trim.n3afhk3")],
+    "thorough": [("rel", "c02.n2s3k3"), ("rel", "c02.n2s2k4"), ("rel", "c02.n3s3pk4"), ("rel", "c02.trim.n3afhk3"), ("rel", "c02.trim.n3s3pk4"), ("rel", "c02.trim.n4s3pk3")],
     "require": {"all": ["intersection_nonempty", "intersection_empty", "class_empty_operand", "class_useless_states"]},
 }
 
@@ -64,8 +64,8 @@ PLAN["C04"] = {
     "assumptions": COMMON_ASSUMPTIONS,
     "claim": "Every dense automaton of the finite domains under every bijective renumbering; relation compared entry-wise with the definition.",
     "technique": "bounded exhaustive enumeration of automata x all state bijections x insertion orders against definitional greatest-fixpoint simulations",
-    "quick": [("rel", "c04.n2s3k5"), ("rel", "c04.n3s3pk4")],
-    "thorough": [("rel", "c04.n2s3k6"), ("rel", "c04.n3s3pk5")],
+    "quick": [("rel", "c04.n2s3k5"), ("rel", "c04.n3s3pk4"), ("rel", "c04.n2afhk3"), ("rel", "c04.n3ahk3")],
+    "thorough": [("rel", "c04.n2s3k6"), ("rel", "c04.n3s3pk5"), ("rel", "c04.n2afhk4"), ("rel", "c04.n3ahk3")],
     "require": {"all": ["trimmed", "not_trimmed", "up_nonidentity", "down_nonidentity"]},
 }
 
@@ -76,8 +76,8 @@ PLAN["C05"] = {
     "assumptions": COMMON_ASSUMPTIONS,
     "claim": "Every automaton of the finite domains under three numberings.",
     "technique": "bounded exhaustive enumeration of automata x numberings against reference language equality and image search",
-    "quick": [("rel", "c05.n3s3pk4"), ("rel", "c05.n2s3k6"), ("rel", "c05.n4afk4"), ("rel", "c05.n4afk5.std")],
-    "thorough": [("rel", "c05.n4afk5"), ("rel", "c05.n4s3pk3"), ("rel", "c05.n3s3pk5"), ("rel", "c05.n2s3k7")],
+    "quick": [("rel", "c05.n3s3pk4"), ("rel", "c05.n2s3k6"), ("rel", "c05.n4afk4"), ("rel", "c05.n4afk5.std"), ("rel", "c05.n3afhk3")],
+    "thorough": [("rel", "c05.n4afk5"), ("rel", "c05.n4s3pk3"), ("rel", "c05.n3s3pk5"), ("rel", "c05.n2s3k7"), ("rel", "c05.n3afhk3")],
     "require": {"all": ["reduced_states", "class_useless_states", "lang_nonempty"]},
 }
 
@@ -89,8 +89,8 @@ PLAN["C06"] = {
     "assumptions": COMMON_ASSUMPTIONS + ["states are numbered 0..m-1 as the library's loaders produce them; a sparse-numbering sub-check is run separately"],
     "claim": "Every automaton of the finite domains over every small ranked alphabet and registration order.",
     "technique": "bounded exhaustive enumeration of automata x alphabets x registration orders against reference product-emptiness and universality",
-    "quick": [("rel", "c06.n2sAk2"), ("rel", "c06.n2sLk4"), ("rel", "c06.n2sAFk4"), ("rel", "c06.n2s2k4"), ("rel", "c06.n2s3k3"), ("rel", "c06.sparse.n2s2k3")],
-    "thorough": [("rel", "c06.n2sAk2"), ("rel", "c06.n2sLk4"), ("rel", "c06.n2sAFk4"), ("rel", "c06.n2s2k5"), ("rel", "c06.n2s3k4"), ("rel", "c06.n3agk3"), ("rel", "c06.sparse.n2s2k3")],
+    "quick": [("rel", "c06.n2sAk2"), ("rel", "c06.n2sLk4"), ("rel", "c06.n2sAFk4"), ("rel", "c06.n2s2k4"), ("rel", "c06.n2s3k3"), ("rel", "c06.n2ahk3"), ("rel", "c06.n2afhk3"), ("rel", "c06.sparse.n2s2k3")],
+    "thorough": [("rel", "c06.n2sAk2"), ("rel", "c06.n2sLk4"), ("rel", "c06.n2sAFk4"), ("rel", "c06.n2s2k5"), ("rel", "c06.n2s3k4"), ("rel", "c06.n3agk3"), ("rel", "c06.n2ahk3"), ("rel", "c06.n2afhk3"), ("rel", "c06.sparse.n2s2k3")],
     "require": {"all": ["A_universal", "A_not_universal", "A_empty", "class_unused_registered_symbol"]},
 }
 
@@ -102,8 +102,8 @@ PLAN["C14"] = {
     "assumptions": COMMON_ASSUMPTIONS,
     "claim": "Every automaton x every state map x every symbol map of the finite domains, exact set equality with the image.",
     "technique": "bounded exhaustive enumeration of automata x all state maps x all symbol maps against the image computed by definition",
-    "quick": [("rel", "c14.n3s3pk3")],
-    "thorough": [("rel", "c14.n3s3pk4"), ("rel", "c14.n2s3k5")],
+    "quick": [("rel", "c14.n3s3pk3"), ("rel", "c14.n2afhk3")],
+    "thorough": [("rel", "c14.n3s3pk4"), ("rel", "c14.n2s3k5"), ("rel", "c14.n2afhk3")],
     "require": {"all": ["maps_injective", "maps_merging", "symbol_maps"]},
 }
 
@@ -121,15 +121,15 @@ PLAN["C15"] = {
 PLAN["C16"] = {
     "level": "exploration",
     "rule": "every LTS of LTS(n states, L labels, <=k edges) (isolated states included; systems with <=3 edges also with one edge inserted twice) x every partition of the states x every "
-            "reflexive-transitive relation on the blocks x every output size 1..n x counter row size {regular 31, 1, 2} (guarded hook: tiny SharedCounter rows make small systems span several rows), plus the partition-free entries computeSimulation(size 0..n) and computeSimulation(): result compared "
+            "reflexive-transitive relation on the blocks x every output size 1..n x counter row size {regular 31, 1, 2} (guarded hook: tiny SharedCounter rows make small systems span several rows), plus the partition-free entries computeSimulation(size 0..n) and computeSimulation(), plus a structured family of LARGER systems (17, 20, 33, 40 states; one of 9 edge templates per label x 3 partitions x block preorders x EVERY output size) that crosses the size thresholds of BinaryRelation / SharedCounter with their real constants: result compared "
             "entry-wise on [0,out)^2 with the greatest simulation inside the initial relation computed by the naive fixpoint; an evaluation = one (system, partition, preorder, size); "
             "non-trivial = at least one edge and some off-diagonal pair is related or pruned",
     "assumptions": COMMON_ASSUMPTIONS,
     "claim": "Every LTS x partition x block preorder x output size of the finite domains, relation compared entry by entry with the definition.",
     "technique": "bounded exhaustive enumeration of labelled transition systems x all partitions x all block preorders against a naive greatest-fixpoint simulation",
-    "quick": [("rel", "c16.n3l2k7"), ("rel", "c16.n4l1k4b3"), ("rel", "c16.n3l3k4"), ("rel", "c16.n4l2k3b3")],
-    "thorough": [("rel", "c16.n3l2all"), ("rel", "c16.n4l1all"), ("rel", "c16.n3l3k5"), ("rel", "c16.n4l2k5b3"), ("rel", "c16.n5l1k5b3"), ("asan", "c16.n3l2k5"), ("asan", "c16.n4l1k4b3")],
-    "require": {"all": ["relation_pruned", "relation_kept"]},
+    "quick": [("rel", "c16.n3l2k7"), ("rel", "c16.n4l1k4b3"), ("rel", "c16.n3l3k4"), ("rel", "c16.n4l2k3b3"), ("rel", "c16.family.n17n20"), ("rel", "c16.family.n33n40")],
+    "thorough": [("rel", "c16.n3l2all"), ("rel", "c16.n4l1all"), ("rel", "c16.n3l3k5"), ("rel", "c16.n4l2k5b3"), ("rel", "c16.n5l1k5b3"), ("rel", "c16.family.n17n20"), ("rel", "c16.family.n33n40"), ("rel", "c16.family.n65"), ("asan", "c16.n3l2k5"), ("asan", "c16.n4l1k4b3"), ("asan", "c16.family.n17n20")],
+    "require": {"all": ["relation_pruned", "relation_kept", "output_size_16", "output_size_above_16"]},
 }
 
 PLAN["C09"] = {
@@ -240,8 +240,8 @@ PLAN["C07"] = {
     "assumptions": COMMON_ASSUMPTIONS + ["16-bit symbol encoding: the domains use at most 4 symbols"],
     "claim": "Every pair of the finite domains through every implemented BDD inclusion selection in both encodings; exhaustive within bounds.",
     "technique": "bounded exhaustive enumeration of automata pairs x BDD encodings x InclParam configurations against a reference subset construction",
-    "quick": [("rel", "c07.unimpl"), ("rel", "c07.n2s2k2"), ("rel", "c07.n2s3k2"), ("rel", "c07.trim.n2s2.a3b3"), ("rel", "c07.trim.n3s2.a2b3"), ("rel", "c07.trim.n3ah.a2b3")],
-    "thorough": [("rel", "c07.unimpl"), ("rel", "c07.n2s2k3"), ("rel", "c07.n2s3k2"), ("rel", "c07.trim.n2s2.a4b4"), ("rel", "c07.trim.n3s2.a3b3"), ("rel", "c07.trim.n3s2.a3b4"), ("rel", "c07.trim.n2s3.a4b4"), ("rel", "c07.trim.n3ah.a2b3"), ("rel", "c07.trim.n3ah.a3b4"), ("rel", "c07.trim.n4ag.a2b4")],
+    "quick": [("rel", "c07.unimpl"), ("rel", "c07.n2s2k2"), ("rel", "c07.n2s3k2"), ("rel", "c07.trim.n2s2.a3b3"), ("rel", "c07.trim.n3s2.a2b3"), ("rel", "c07.trim.n3ah.a2b3")],   # c07.ov.n2k3 (one symbol name, two arities) is in the thorough tier
+    "thorough": [("rel", "c07.unimpl"), ("rel", "c07.n2s2k3"), ("rel", "c07.n2s3k2"), ("rel", "c07.trim.n2s2.a4b4"), ("rel", "c07.trim.n3s2.a3b3"), ("rel", "c07.trim.n3s2.a3b4"), ("rel", "c07.trim.n2s3.a4b4"), ("rel", "c07.trim.n3ah.a2b3"), ("rel", "c07.trim.n3ah.a3b4"), ("rel", "c07.trim.n4ag.a2b4"), ("rel", "c07.ov.n2k3")],
     "require": {"all": ["expect_included", "expect_not_included", "nonemptyA_included", "class_binary_rules_both_trimmed", "unimpl_calls"]},
 }
 
@@ -257,8 +257,8 @@ PLAN["C08"] = {
     "assumptions": HIST_ASSUMPTIONS + ["the process-wide symbolic alphabet is pre-registered in a fixed order (a, b, g) once per worker so that symbol codes, and with them the state keys, do not depend on earlier cases"],
     "claim": "All operation histories up to the stated depth over BDD automata that share transition tables, plus exhaustive single calls over the finite domains.",
     "technique": "explicit-state breadth-first search over operation histories of BDD automata sharing transition tables + bounded exhaustive enumeration of single calls",
-    "quick": [("rel", "c08.single.n2s2k3"), ("rel", "c08.single.n3s3pk3"), ("rel", "c08.pairs.n2s2k2"), ("rel", "c08.pairs.trim.n3s3pk3"), ("rel", "c08.hist.bu.d4"), ("rel", "c08.hist.td.d4")],
-    "thorough": [("rel", "c08.single.n2s3k4"), ("rel", "c08.single.n3s3pk3"), ("rel", "c08.pairs.n2s2k3"), ("rel", "c08.pairs.n2s3k2"), ("rel", "c08.pairs.trim.n3s3pk3"), ("rel", "c08.pairs.trim.n3s3pk4"), ("rel", "c08.hist.bu.d5"), ("rel", "c08.hist.td.d5"), ("asan", "c08.hist.bu.d3"), ("asan", "c08.hist.td.d3")],
+    "quick": [("rel", "c08.single.n2s2k3"), ("rel", "c08.single.n3s3pk3"), ("rel", "c08.single.ov.n2k4"), ("rel", "c08.pairs.n2s2k2"), ("rel", "c08.pairs.ov.trim.n2k3"), ("rel", "c08.pairs.trim.n3s3pk3"), ("rel", "c08.hist.bu.d4"), ("rel", "c08.hist.td.d4")],
+    "thorough": [("rel", "c08.single.n2s3k4"), ("rel", "c08.single.n3s3pk3"), ("rel", "c08.pairs.n2s2k3"), ("rel", "c08.pairs.n2s3k2"), ("rel", "c08.pairs.trim.n3s3pk3"), ("rel", "c08.pairs.trim.n3s3pk4"), ("rel", "c08.single.ov.n2k4"), ("rel", "c08.pairs.ov.n2k3"), ("rel", "c08.pairs.ov1.n2k2"), ("rel", "c08.hist.bu.d5"), ("rel", "c08.hist.td.d5"), ("asan", "c08.hist.bu.d3"), ("asan", "c08.hist.td.d3")],
     "require": {"all": ["transitions_into_sharing_states", "intersection_nonempty", "class_useless_states", "lang_nonempty"]},
 }
 
@@ -274,7 +274,7 @@ PLAN["C13"] = {
     "assumptions": COMMON_ASSUMPTIONS + ["'all byte strings' is decided only for the bounded token language above (deviation from well-formed text is bounded, not the length of the well-formed part)"],
     "claim": "Every description / automaton / token string / token edit of the stated finite domains.",
     "technique": "bounded exhaustive enumeration of descriptions, automata and token strings (all strings to a length, all 1- and 2-edit deviations from valid templates), sanitizer as crash oracle",
-    "quick": [("rel", "c13.desc.k3"), ("rel", "c13.enc.tree.n2s2k3"), ("rel", "c13.enc.tree.n3s3pk3"), ("rel", "c13.enc.fa.n3l2k4"), ("rel", "c13.text.len5"), ("rel", "c13.edit2"), ("asan", "c13.text.len4"), ("asan", "c13.edit1")],
+    "quick": [("rel", "c13.desc.k3"), ("rel", "c13.enc.tree.n2s2k3"), ("rel", "c13.enc.tree.n3s3pk3"), ("rel", "c13.enc.tree.ov.n2k3"), ("rel", "c13.enc.fa.n3l2k4"), ("rel", "c13.text.len5"), ("rel", "c13.edit2"), ("asan", "c13.text.len4"), ("asan", "c13.edit1")],
     "thorough": [("rel", "c13.desc.k3"), ("rel", "c13.enc.tree.n2s2k3"), ("rel", "c13.enc.tree.n3s3pk3"), ("rel", "c13.enc.fa.n3l2k4"), ("rel", "c13.text.len5"), ("rel", "c13.edit2"), ("asan", "c13.text.len5"), ("asan", "c13.edit2")],
     "require": {"all": ["class_empty_final_set", "class_empty_transition_section", "class_nullary_rule", "class_start_state_with_two_start_symbols", "dump_load_cycles"]},
 }
@@ -302,7 +302,7 @@ PLAN["C19"] = {
 
 _C20_ASAN_QUICK = ["c01.n2s2k2", "c01.trim.n2s3.a3b3", "c02.n2s3k2", "c03.n3s3pk3", "c03.n3afhk3", "c04.n2s3k4", "c04.n3s3pk3", "c05.n3s3pk3", "c06.n2s2k3", "c06.n2sAFk4", "c06.sparse.n2s2k3",
                    "c07.n2s2k2", "c07.trim.n3ah.a2b3", "c08.single.n2s2k3", "c08.pairs.trim.n2s2k3", "c08.hist.bu.d3", "c08.hist.td.d3", "c09.n2l1", "c10.single.n3l2k3", "c10.pairs.n2l1",
-                   "c11.tree.d4", "c11.fa.d5", "c12.d5", "c14.n3s3pk2", "c15.n3s3pk3", "c15.n3afhk3", "c16.n3l2k4", "c17.v3.base", "c17.v3.apply2", "c17.v3.trees", "c17.v3.allfn", "c18.d3",
+                   "c11.tree.d4", "c11.fa.d5", "c12.d5", "c14.n3s3pk2", "c15.n3s3pk3", "c15.n3afhk3", "c16.n3l2k4", "c16.family.n17n20", "c17.v3.base", "c17.v3.apply2", "c17.v3.trees", "c17.v3.allfn", "c18.d3",
                    "c13.text.len3", "c13.enc.tree.n2s2k3", "c13.enc.fa.n2l2k3", "c19.corpus.small.single", "c19.corpus.smaller.single"]
 _C20_DIFF_QUICK = ["c01.n2s2k2", "c02.n2s3k2", "c03.n3s3pk3", "c05.n3s3pk3", "c06.n2s2k3", "c07.n2s2k2", "c08.single.n2s2k3", "c08.pairs.trim.n2s2k3", "c09.n2l1", "c10.single.n3l2k3", "c10.pairs.n2l1",
                    "c14.n3s3pk2", "c15.n3s3pk3", "c16.n3l2k4", "c17.v3.apply2", "c04.n2s3k4"]
